@@ -57,7 +57,7 @@ var fnWhitelist = map[string][]string{
 		"Header.Valid",
 		"OperatorClaims.Claims", "AccountClaims.Claims", "UserClaims.Claims", "ActivationClaims.Claims", "ClusterClaims.Claims", "ServerClaims.Claims", "GenericClaims.Claims",
 		"OperatorClaims.ExpectedPrefixes", "AccountClaims.ExpectedPrefixes", "UserClaims.ExpectedPrefixes", "ActivationClaims.ExpectedPrefixes", "ClusterClaims.ExpectedPrefixes", "ServerClaims.ExpectedPrefixes", "GenericClaims.ExpectedPrefixes",
-		"Decode",
+		"ClaimsData.Verify", "Decode",
 	},
 }
 
@@ -258,7 +258,6 @@ var foreignOpaque = map[string]string{
 	"nkeys.IsValidPublicServerKey":   "Str → Bool",
 	"nkeys.IsValidPublicCurveKey":    "Str → Bool",
 	"nkeys.IsValidPublicClusterKey":  "Str → Bool",
-	"Claims.Verify":                  "I_Claims → Str → (List Int) → Bool", // v1compat spells it with a capital // the interface method `verify(payload, sig)`: the signature check under the claim's own issuer
 	"url.Parse":                      "Str → Option T_url_URL",             // none = the error result is non-nil (and the *URL is nil)
 	"time.Parse":                     "Str → Str → Bool",                   // true = the error result is non-nil
 	"time.LoadLocation":              "Str → Bool",                         // true = the error result is non-nil
